@@ -163,6 +163,10 @@ func runC17(c *core.Ctx) core.Meta {
 		}
 	}
 
+	// R17.11 a delayed request expires even when the pipeline is busy at the cycle of expiry
+	st11 := c.Rule("R17.11", "the row-miss delay of a request ends: a countdown that the component decrements on every tick whatever its value (delayedItem.cyclesLeft) is tested for expiry with an ordering comparison, not with == 0 - the item that finds the bank's pipeline busy in the cycle its counter reaches 0 is kept, goes to -1 and would never be released; the request gets no response and every later request of the bank waits behind it", 1)
+	checkCountdownExpiry(c, st11, "R17.11", p, "the request never enters the bank's pipeline, is never answered, and every later request of that bank queues behind it")
+
 	// R17.10 one internal address per request
 	st10 := c.Rule("R17.10", "every storage access of a request uses the request's internal address: where the component has an address converter (a call of AddressConverter.ConvertExternalToInternal exists in the package), the address argument of every Storage.Read / Storage.Write is the converted address (the value merged from the raw address and the converter's result, directly or through a helper of the package), and all accesses of one function use one and the same address value - the read half of a masked read-modify-write at the raw address merges the new bytes into the wrong line", 3)
 	isConvert := func(v ssa.Value) bool {
